@@ -416,6 +416,38 @@ def run(ctx):
             ctx.violation("two scans in progress at once disturb each other", {"op": "iter_find_needle", "failed": "interleaved_scans"},
                           {"size": size, "alone": [solo[0][:8], solo[1][:8]], "in_turn": str(both)[:200], "nested": str(nested)[:200]})
         ctx.count_distinct(("interleaved", size))
+    # file objects whose descriptor holds other bytes than they read back (compressed files, wrappers that decode): the scanner searches
+    # what read() returns - Scan.tla knows the file through Read only
+    import bz2
+    import gzip
+    import lzma
+
+    rng3 = random.Random(ctx.seed + 1516)
+    for size in (700, 40000):
+        ndl = b"NEEDLE"
+        h_ = bytearray(rng3.choice(b"abcxyz") for _ in range(size))
+        for p_ in sorted({5, size // 3, 8189 % size, size - 7}):
+            h_[p_:p_ + len(ndl)] = ndl
+        want = occurrences(bytes(h_), ndl)
+        for nm_, opener in (("gzip", gzip.open), ("bz2", bz2.open), ("lzma", lzma.open)):
+            pth = ctx.outdir / f"hay.{nm_}"
+            with opener(pth, "wb") as w_:
+                w_.write(bytes(h_))
+            with opener(pth, "rb") as fz:
+                o = core.guarded(lambda: list(utils.iter_find_needle(fz, ndl, start_offset=0)), seconds=60)
+            with opener(pth, "rb") as fz:
+                fz.read(3)
+                o2 = core.guarded(lambda: list(utils.iter_find_needle(fz, ndl)), seconds=60)
+            pth.unlink()
+            ctx.evaluations += 2
+            if o != ("ok", want) or o2 != ("ok", [x for x in want if x >= 3]):
+                ctx.violation("iter_find_needle searches other bytes than the file object reads back", {"op": "iter_find_needle", "failed": "decoding_file_object"},
+                              {"kind": nm_, "size": size, "expected": want, "got": str(o)[:160], "from_position_3": str(o2)[:160]})
+            ctx.count_distinct(("decoding_fobj", nm_, size))
+    # scanning generators resumed after the caller moved the file handle (Resume.tla)
+    from vt.checks import xresume
+
+    xresume.resume_part(ctx, "C15")
     # history freedom of the functions of their input behind this property (Pure.tla)
     from vt.checks import xpure
 
